@@ -183,7 +183,7 @@ func (m *Machine) intercept(fn *ssa.Function, args []Val, caller *frame, site ss
 	case "(*sync.Pool).Get", "(*sync.Pool).Put":
 		return func() Val { return m.syncPoolOp(fn.Name(), args, caller) }
 	case "(*sync.Once).Do":
-		return func() Val { m.unmodelled("sync.Once.Do"); return nil }
+		return func() Val { return m.syncOnceDo(args, caller) }
 	case "(*github.com/deckarep/golang-set.threadUnsafeSet).Iter":
 		return func() Val { return m.setIter(args[0]) }
 	case "(*github.com/deckarep/golang-set.threadSafeSet).Iter":
@@ -694,6 +694,13 @@ func (m *Machine) freshTapeByte() *Term {
 		}
 		m.tapePos++
 	}
+	if len(m.script) > 0 {
+		// vTapeScript: the harness fixed the next source bytes (probe words)
+		t := BV(8, uint64(m.script[0]))
+		m.script = m.script[1:]
+		m.tape = append(m.tape, t)
+		return t
+	}
 	t := Var(fmt.Sprintf("tape%d", len(m.tape)), 8)
 	m.tape = append(m.tape, t)
 	return t
@@ -833,6 +840,18 @@ func (m *Machine) nativeArg(i Iface) (interface{}, bool, bool) {
 func (m *Machine) format(f Val, args SliceV) *StrV {
 	fs, ok := conc(f)
 	if !ok {
+		// a symbolic string used as the format: without a '%' it prints as
+		// itself; the path forks on whether any of its bytes is one
+		if fsv, isStr := f.(*StrV); isStr && args.Len == 0 {
+			any := tFalse
+			for _, b := range fsv.Bytes() {
+				any = Or(any, Eq(b, BV(8, '%')))
+			}
+			if !m.branch(any, "symbolic format string contains a verb") {
+				return fsv
+			}
+			return &StrV{S: "<symbolic format string with a verb>", T: true}
+		}
 		return &StrV{S: "<symbolic format>", T: true}
 	}
 	nat := make([]interface{}, args.Len)
@@ -1587,6 +1606,54 @@ func (m *Machine) syncPoolOp(op string, args []Val, caller *frame) Val {
 			}
 		}
 		return Iface{}
+	}
+	return nil
+}
+
+// syncOnceDo models sync.Once in the single logical thread: the done flag is
+// the leaf integer cell of the Once value itself (so that copying the struct
+// copies the flag, as in Go); the first Do stores into it - a write to whatever
+// object holds the Once - and calls f.
+func (m *Machine) syncOnceDo(args []Val, caller *frame) Val {
+	p := args[0].(Ptr)
+	if p.C == nil {
+		m.rtPanic("nil *sync.Once")
+	}
+	c := p.C
+	for depth := 0; depth < 4; depth++ {
+		sv, ok := c.V.(*StructV)
+		if !ok {
+			break
+		}
+		var next *Cell
+		for _, f := range sv.F {
+			if t, ok := f.V.(*Term); ok && t.W == 32 {
+				next = f
+				break
+			}
+		}
+		if next == nil {
+			for _, f := range sv.F {
+				if in, ok := f.V.(*StructV); ok && len(in.F) > 0 {
+					next = f
+					break
+				}
+			}
+		}
+		if next == nil {
+			break
+		}
+		c = next
+	}
+	t, ok := c.V.(*Term)
+	if !ok {
+		m.unmodelled("sync.Once layout")
+	}
+	if m.branch(Eq(t, BV(t.W, 0)), "sync.Once: first call") {
+		m.storeCell(c, BV(t.W, 1), "sync.Once.Do")
+		if cl := args[1]; cl != nil {
+			m.callValue(cl, nil, caller, nil)
+		}
 	}
 	return nil
 }
